@@ -11,7 +11,7 @@ import Micm.Model.Errors
 import Micm.Model.Rosenbrock
 namespace Micm
 
-structure StateM (α : Type) where
+structure MState (α : Type) where
   varMap : NameMap            -- `variable_map_`        (name ↦ column of `variables_`)
   parMap : NameMap            -- `custom_rate_parameter_map_` (label ↦ column of `custom_rate_parameters_`)
   nVars : Nat
@@ -25,15 +25,15 @@ structure StateM (α : Type) where
 section
 variable {α : Type}
 
-def StateM.nCells (st : StateM α) : Nat := st.vars.size
+def MState.nCells (st : MState α) : Nat := st.vars.size
 
 /-- write column `j` of every row from `vals` (row `c` gets `vals[c]`) -/
-def setColumn [Inhabited α] (m : Mat α) (j : Nat) (vals : List α) : Mat α :=
-  m.mapIdx fun c row => wr row j (vals.getD c default)
+def setColumn [OfNat α 0] (m : Mat α) (j : Nat) (vals : List α) : Mat α :=
+  m.mapIdx fun c row => wr row j (vals.getD c 0)
 
 /-- `SetConcentration(species, std::vector<double>)`: unknown name first, then the length -/
-def StateM.setConcentration [Inhabited α] (st : StateM α) (name : String) (vals : List α) :
-    Except Err (StateM α) :=
+def MState.setConcentration [OfNat α 0] (st : MState α) (name : String) (vals : List α) :
+    Except Err (MState α) :=
   match nmLookup st.varMap name with
   | none => .error (.sys catState 1)
   | some j =>
@@ -41,8 +41,8 @@ def StateM.setConcentration [Inhabited α] (st : StateM α) (name : String) (val
     else .ok { st with vars := setColumn st.vars j vals }
 
 /-- `SetConcentration(species, double)`: only for a single grid cell -/
-def StateM.setConcentrationScalar [Inhabited α] (st : StateM α) (name : String) (v : α) :
-    Except Err (StateM α) :=
+def MState.setConcentrationScalar [OfNat α 0] (st : MState α) (name : String) (v : α) :
+    Except Err (MState α) :=
   match nmLookup st.varMap name with
   | none => .error (.sys catState 1)
   | some j =>
@@ -50,8 +50,8 @@ def StateM.setConcentrationScalar [Inhabited α] (st : StateM α) (name : String
     else .ok { st with vars := setColumn st.vars j [v] }
 
 /-- `SetCustomRateParameter(label, std::vector<double>)` -/
-def StateM.setParameter [Inhabited α] (st : StateM α) (label : String) (vals : List α) :
-    Except Err (StateM α) :=
+def MState.setParameter [OfNat α 0] (st : MState α) (label : String) (vals : List α) :
+    Except Err (MState α) :=
   match nmLookup st.parMap label with
   | none => .error (.sys catState 2)
   | some j =>
@@ -59,8 +59,8 @@ def StateM.setParameter [Inhabited α] (st : StateM α) (label : String) (vals :
     else .ok { st with pars := setColumn st.pars j vals }
 
 /-- `SetCustomRateParameter(label, double)` -/
-def StateM.setParameterScalar [Inhabited α] (st : StateM α) (label : String) (v : α) :
-    Except Err (StateM α) :=
+def MState.setParameterScalar [OfNat α 0] (st : MState α) (label : String) (v : α) :
+    Except Err (MState α) :=
   match nmLookup st.parMap label with
   | none => .error (.sys catState 2)
   | some j =>
@@ -69,7 +69,7 @@ def StateM.setParameterScalar [Inhabited α] (st : StateM α) (label : String) (
 
 /-- a bulk setter: apply `f` to the entries in (iteration) order, stop at the first error and return
     the State as left by the entries before it -/
-def bulk {κ : Type} (f : StateM α → κ → Except Err (StateM α)) : StateM α → List κ → StateM α × Option Err
+def bulk {κ : Type} (f : MState α → κ → Except Err (MState α)) : MState α → List κ → MState α × Option Err
   | st, [] => (st, none)
   | st, k :: ks =>
     match f st k with
@@ -77,20 +77,20 @@ def bulk {κ : Type} (f : StateM α → κ → Except Err (StateM α)) : StateM 
     | .ok st' => bulk f st' ks
 
 /-- `SetConcentrations(unordered_map)`, entries in the map's iteration order -/
-def StateM.setConcentrations [Inhabited α] (st : StateM α) (kvs : List (String × List α)) :
-    StateM α × Option Err :=
+def MState.setConcentrations [OfNat α 0] (st : MState α) (kvs : List (String × List α)) :
+    MState α × Option Err :=
   bulk (fun st kv => st.setConcentration kv.1 kv.2) st kvs
 
 /-- `SetCustomRateParameters(unordered_map)` -/
-def StateM.setParameters [Inhabited α] (st : StateM α) (kvs : List (String × List α)) :
-    StateM α × Option Err :=
+def MState.setParameters [OfNat α 0] (st : MState α) (kvs : List (String × List α)) :
+    MState α × Option Err :=
   bulk (fun st kv => st.setParameter kv.1 kv.2) st kvs
 
 /-- `UnsafelySetCustomRateParameters(vector<vector<double>>)`: number of rows, length of the FIRST row,
     then row assignments (each needs at least `nPars` elements, extra elements are ignored; a short row
     throws the matrix error after the rows before it were written) -/
-def StateM.unsafelySetParameters [Inhabited α] (st : StateM α) (rows : List (List α)) :
-    StateM α × Option Err :=
+def MState.unsafelySetParameters [OfNat α 0] (st : MState α) (rows : List (List α)) :
+    MState α × Option Err :=
   if rows.length ≠ st.vars.size then (st, some (.sys catState 5))
   else if (rows.headD []).length ≠ st.nPars then (st, some (.sys catState 4))
   else
@@ -106,15 +106,15 @@ def StateM.unsafelySetParameters [Inhabited α] (st : StateM α) (rows : List (L
     ({ st with pars := r.1 }, r.2)
 
 /-- `SetAbsoluteTolerances`: no check at all -/
-def StateM.setAbsoluteTolerances (st : StateM α) (v : List α) : StateM α := { st with atol := v.toArray }
+def MState.setAbsoluteTolerances (st : MState α) (v : List α) : MState α := { st with atol := v.toArray }
 
-def StateM.setRelativeTolerance (st : StateM α) (v : α) : StateM α := { st with rtol := v }
+def MState.setRelativeTolerance (st : MState α) (v : α) : MState α := { st with rtol := v }
 
 /-- reading a concentration by name -/
-def StateM.concentration [OfNat α 0] (st : StateM α) (name : String) (cell : Nat) : Option α :=
+def MState.concentration [OfNat α 0] (st : MState α) (name : String) (cell : Nat) : Option α :=
   (nmLookup st.varMap name).map fun j => rd (st.vars.getD cell #[]) j
 
-def StateM.parameter [OfNat α 0] (st : StateM α) (label : String) (cell : Nat) : Option α :=
+def MState.parameter [OfNat α 0] (st : MState α) (label : String) (cell : Nat) : Option α :=
   (nmLookup st.parMap label).map fun j => rd (st.pars.getD cell #[]) j
 
 end
